@@ -55,6 +55,18 @@ CHECKS = {
   text="Coq theorems over the type-checker model: the shape rules (blob instantiation with missing/unknown field, absent field access, unknown enum variant, non-exhaustive case without else, tuple index/length, externblob instantiation, break/continue outside a loop of the same function, start of type fn -> void) are rejected in every syntactic context (local rejection + propagation). A planting oracle on the real compiler covers every rule at every position for random blob/enum declarations; the emitted Lua of accepted bases must load (lua_wf).",
   note="Trusted: Coq kernel; coq/Types/Tc.v as the model of typechecker.rs (differential tie); extraction; planters; lua_wf for the load check. No axioms.",
   technique="Coq rejection/propagation theorems on a type-checker model + differential tie + planting oracle on the real compiler", design="DESIGN.md §4 C05"),
+ "C09": dict(
+  text="Coq theorems over a model of the resolver (coq/Resolve, exact on the tie: variable table, resolved statements and first error of the real resolver through the hook): a readable scope-list specification in which an identifier refers to the innermost visible declaration, then to the file's globals, and is rejected otherwise; the resolver's stack discipline computes exactly that specification on every parser-producible AST whenever the four scope flags regenerated from name_resolution.rs are on (C09_resolve_refines), and is refuted with a concrete program whenever one is off (C09_resolve_refines_refuted); consistent renamings (injective on globals, any shadowing-compatible renaming of binders) give equal resolver results up to diagnostic names for every fuel (C09_alpha). Oracle on the real compiler: byte-equal Lua for maximally-distinct vs maximally-shadowing renamings; planted out-of-scope / use-before-declaration uses are rejected.",
+  note="Open known finding C09-namespace-shadows-local-in-field-access (x.f prefers a namespace named x over a local x; the repo's own test records it as undecided), so on this tree the fourth flag is off and the refinement theorem applies to the three restored flags only through the differential tie. Trusted: Coq kernel; gen_resolve.py (flags); Resolve/Resolver.v as the model of name_resolution.rs (tie each run); dump conversion and drivers; extraction. No axioms.",
+  technique="Coq refinement (resolver stack discipline = scope-list spec) and alpha-equivalence theorems on a resolver model + regenerated flags + differential tie + renaming oracle on the real compiler", design="DESIGN.md §4 C09"),
+ "C11": dict(
+  text="Coq theorems over a model of dependency.rs (dependency extraction + DFS ordering, exact on the tie against the real initialization_order through the hook): every variable a definition reads, calls or assigns at any depth is in its dependency set (C11_deps_complete: proved for the code as it is now, with the refutation kept for the variant that ignores assignment targets); a successful order is a permutation in which every statement follows the definitions it depends on (topo_sound); a cycle is reported iff the dependency graph has one, never out of fuel (topo_complete); the result is independent of the order of the input statements and acceptance is independent of the numbering of the variables (order_accept_perm / order_accept_iso); types come first. Oracle on the real compiler + Lua interpreter model: a program and random permutations of its top-level statements give the same accept/reject and the same trace.",
+  note="Open known finding C11-initialiser-effects-run-in-definition-order (independent initialisers with visible effects run in source order). Trusted: Coq kernel; gen_resolve.py (assignment-target flag); Dep/*.v as the model of dependency.rs (tie each run); that running definitions in an order that respects dependencies initialises before use is Lua semantics observed through LuaCore in the oracle, not proved end to end. No axioms.",
+  technique="Coq soundness/completeness/permutation-invariance theorems on a model of the dependency ordering + regenerated flag + differential tie + permutation oracle on the real compiler", design="DESIGN.md §4 C11"),
+ "C12": dict(
+  text="Coq theorems over models of module discovery (parser.rs tree(): work list, visited set, file ids) and use_path (statement.rs), exact on the tie against the real tree() on generated file maps: each file is loaded once (visit_once); the import path to file mapping for relative/rooted files and folders (exports.sy), the root and std libraries is the documented one (use_path_*); a qualified access ns.x and a from-import resolve to the very variable of the named module (import_transparent_*), a name that is not imported is not visible (not_imported_invisible) and imports do not disturb other files' tables (imports_frame); the order dependence of from-importing a re-exported name is stated as a theorem (C12_reexport_order_dependent). Oracle on the real compiler + Lua interpreter model: single-file vs partitioned multi-file variants in every import style agree on accept/reject and trace.",
+  note="Open known finding C12-from-import-of-reexport-depends-on-module-order. Trusted: Coq kernel; Resolve/Modules.v and Resolver.v as models (tie each run); gen_resolve.py (std library names and their imports); the in-memory file reader of the harness stands for the file system. No axioms.",
+  technique="Coq theorems on models of module discovery, path mapping and namespace tables + differential tie + partition oracle on the real compiler", design="DESIGN.md §4 C12"),
 }
 
 NOT_YET = "not yet claimed in this revision (machinery under construction; see DESIGN.md §4 for the plan)"
